@@ -92,7 +92,25 @@ func c16Check(c c16Case) error {
 			acap = dh.Len() + tailBytes - s
 		}
 	}
-	a := asm.NewEmitter(make([]byte, acap), c.Listing)
+	// the original's target is a window into a larger array (len < cap): nothing may be written beyond it
+	abig := make([]byte, acap+16)
+	for i := range abig {
+		abig[i] = 0xC3
+	}
+	a := asm.NewEmitter(abig[4:4+acap], c.Listing)
+	guardOK := func() bool {
+		for i := 0; i < 4; i++ {
+			if abig[i] != 0xC3 {
+				return false
+			}
+		}
+		for i := 4 + acap; i < len(abig); i++ {
+			if abig[i] != 0xC3 {
+				return false
+			}
+		}
+		return true
+	}
 	for _, o := range head {
 		asmcat.ApplyReal(a, o)
 	}
@@ -120,7 +138,13 @@ func c16Check(c c16Case) error {
 		if df := atSplit.diff(observe(a)); df != "" {
 			return fmt.Errorf("refused Append modified the original: %s", df)
 		}
+		if !guardOK() {
+			return fmt.Errorf("refused Append wrote outside the original's %d-byte target buffer", acap)
+		}
 		return nil
+	}
+	if !guardOK() {
+		return fmt.Errorf("Append wrote outside the original's %d-byte target buffer", acap)
 	}
 	if pan != nil {
 		return fmt.Errorf("Append panicked although the tail (%d bytes) fits (%d free): %v", tailBytes, acap-atSplit.snap.n, pan)
